@@ -8,13 +8,16 @@ import tempfile
 PROPERTY = 'C15'
 THEOREMS = ['UseM.task_runs_its_own_request', 'UseM.different_request_not_shared', 'UseM.same_request_same_task',
             'UseM.history_good', 'UseM.make_runs_its_own_request', 'UseM.close_nodup', 'UseM.close_sound',
-            'UseM.close_complete', 'UseM.duplicate_names_rejected', 'UseM.c15_pinned_refuted']
+            'UseM.close_closed', 'UseM.close_complete', 'UseM.duplicate_names_rejected', 'UseM.c15_pinned_refuted']
 BUDGET = {'quick': 1500, 'thorough': 30000}
 TIME_LIMIT = {'quick': 50, 'thorough': 600}
 RULE = ('histories (2-12 calls) of Use.from_func(...).get_task() [same-named functions, lambdas, hard/soft, positional/'
         'keyword injection, keys result/other/None, serialize], RunTaskFactory.make [user names, extra args, keywords '
-        'over factory defaults, subprocess args, deps, soft deps], factory.copy(), UseRun(...).map(...)(**kw), then '
-        'close_dependency_graph + check_unique_task_names on a random subset; every generated task is executed on a '
+        'over factory defaults, subprocess args, deps, soft deps; 3 in 10: the caller appends to the lists it passed right '
+        'after the call], factory.copy(), UseRun(...).map(...)(**kw), then '
+        'close_dependency_graph + check_unique_task_names on a random subset, and (3 in 10) close_dependency_graph on 1-6 '
+        'fresh tasks wired by hand into any graph, cycles and self-dependencies included (10 s of processor time = hang); '
+        'wrappers sometimes decorated further and then used again; every generated task is executed on a '
         'prepared environment to observe its behaviour; non-trivial = at least one cache hit or explicit error; '
         'distinct = case hash')
 CORRESPONDS = ('Model/Use.lean (getTask, make, useRunCall, newFactory, closeDeps, uniqueNames) vs valjean.cosette.use.Use/'
@@ -111,12 +114,20 @@ def gen(rng, tier, run):
                         [['food', rng.choice(FOODS)]] if rng.random() < 0.5 else [],
                         [['VJ', rng.choice(['v', 'w'])]] if rng.random() < 0.3 else [],
                         [ref(rng, oks)] if rng.random() < 0.3 else [], [ref(rng, oks)] if rng.random() < 0.2 else []]
+                make.append(rng.random() < 0.3)      # the caller edits the containers it passed, after the call
                 if rng.random() < 0.3:
                     op = ['userun', rng.randrange(nfac), [rng.choice(funcs) for _ in range(rng.randrange(0, 3))]] + make
                 else:
                     op = ['make', rng.randrange(nfac)] + make
             ops.append(op)
             oks.append(len(ops) - 1)
+    if rng.random() < 0.3:
+        # collecting the tasks of a job whose tasks were wired by hand (Task.add_dependency): any graph, cycles included
+        n = rng.randrange(1, 7)
+        edges = [[rng.randrange(n), rng.randrange(n), rng.random() < 0.3] for _ in range(rng.randrange(0, 2 * n + 1))]
+        if rng.random() < 0.5:     # a chain, sometimes closed into a ring
+            edges += [[i, i + 1, False] for i in range(n - 1)] + ([[n - 1, 0, rng.random() < 0.5]] if rng.random() < 0.6 else [])
+        ops.append(['closegraph', n, edges, sorted(rng.sample(range(n), rng.randrange(1, n + 1)))])
     ops.append(['close', sorted(rng.sample(oks, rng.randrange(1, min(len(oks), 5) + 1)))])
     return {'ops': ops}
 
@@ -128,6 +139,8 @@ def shrink(case):
         out = set()
         if op[0] == 'use':
             out |= {a[0] for a in op[2]} | {k[1] for k in op[3]}
+            if len(op) > 6:
+                out |= {e[1] for e in op[6]}
         elif op[0] in ('make', 'userun'):
             o = 2 if op[0] == 'make' else 3
             out |= set(op[o + 4]) | set(op[o + 5])
@@ -150,6 +163,8 @@ def shrink(case):
             if op[0] == 'use':
                 op[2] = [[shift(a[0]), a[1]] for a in op[2]]
                 op[3] = [[k[0], shift(k[1]), k[2]] for k in op[3]]
+                if len(op) > 6:
+                    op[6] = [[e[0], shift(e[1]), e[2]] for e in op[6]]
             elif op[0] in ('make', 'userun'):
                 o = 2 if op[0] == 'make' else 3
                 op[o + 4] = [shift(x) for x in op[o + 4]]
@@ -194,6 +209,38 @@ def tok(val):
     if isinstance(val, tuple) and val and val[0] == 'ret':
         return ['ret', val[1]]
     return repr(val)
+
+
+class Hang(Exception):
+    pass
+
+
+def _hang(signum, frame):
+    raise Hang()
+
+
+def close_graph(n, edges, roots):
+    """close_dependency_graph on n fresh tasks wired with add_dependency / soft_depends_on; 10 s of processor time"""
+    import signal
+    from valjean.cosette.pythontask import PythonTask
+    from valjean.cosette.task import close_dependency_graph
+    tasks = [PythonTask(f'g{i}', lambda: None) for i in range(n)]
+    for src, dst, soft in edges:
+        if soft:
+            tasks[src].soft_depends_on.add(tasks[dst])
+        else:
+            tasks[src].add_dependency(tasks[dst])
+    old = signal.signal(signal.SIGPROF, _hang)
+    signal.setitimer(signal.ITIMER_PROF, 10)
+    try:
+        closed = close_dependency_graph([tasks[r] for r in roots])
+    except Hang:
+        return 'hang'
+    finally:
+        signal.setitimer(signal.ITIMER_PROF, 0)
+        signal.signal(signal.SIGPROF, old)
+    idx = {id(t): i for i, t in enumerate(tasks)}
+    return {'tasks': sorted(idx.get(id(t), -1) for t in closed), 'nodup': len({id(t) for t in closed}) == len(closed)}
 
 
 def run_impl(case, run):
@@ -314,6 +361,14 @@ def run_impl(case, run):
                             deco = use_run(**kwargs)
                             probe = deco(make_func(-1, 'probe', []))
                             res = probe.inj_args[-1][0]
+                        if len(op) > o + 6 and op[o + 6]:
+                            # the caller goes on using its own containers for the next request
+                            kwargs['extra_args'].append('late')
+                            if objs:
+                                kwargs['deps'].append(objs[0])
+                                kwargs['soft_deps'].append(objs[-1])
+                            if 'subprocess_args' in kwargs:
+                                kwargs['subprocess_args']['env'] = {'VJ': 'late'}
                         out = {'ok': discover(res)}
                 elif name == 'close':
                     tasks = [resolve(t) for t in op[1]]
@@ -340,6 +395,8 @@ def run_impl(case, run):
                         unique = False
                     out = {'tasks': sorted(ids[id(t)] for t in closed), 'nodup': len({id(t) for t in closed}) == len(closed),
                            'unique': unique}
+                elif name == 'closegraph':
+                    out = close_graph(op[1], op[2], op[3])
                 else:
                     raise ValueError(name)
             except ValueError as exc:
@@ -431,6 +488,8 @@ def run_model(case, driver, run):
                 ops.append(mop)
             elif op[0] == 'close':
                 ops.append(['close', [res(t) for t in op[1] if res(t) is not None]])
+            elif op[0] == 'closegraph':
+                ops.append(['closegraph', op[1], [[e[0], e[1]] for e in op[2]], op[3]])
             else:
                 ops.append(op)
         sent = [o for o in ops if o is not None]
@@ -516,7 +575,7 @@ def oracle(case, impl, run):
             fails.append(('task_runs_its_own_request',
                           f'op {i}: after other wrappers were derived from it, the same wrapper gives task {out["again"]} '
                           f'instead of task {out["ok"]}'))
-        if isinstance(out, str) and out not in ('ValueError', 'skip', 'ok'):
+        if isinstance(out, str) and out not in ('ValueError', 'skip', 'ok', 'hang'):
             fails.append(('no_unexpected_exception', f'op#{i} {op[0]}: {out}'))
             continue
         if out == 'ValueError':
@@ -602,6 +661,23 @@ def oracle(case, impl, run):
                 fails.append(('task_runs_its_own_request', f'op#{i}: task does {b}, request was {exp}'[:500]))
     # collecting the tasks of a job
     for i, (op, out) in enumerate(zip(case['ops'], outs)):
+        if op[0] == 'closegraph':
+            reach = set(op[3])
+            stack = list(op[3])
+            while stack:
+                cur = stack.pop()
+                for src, dst, _ in op[2]:
+                    if src == cur and dst not in reach:
+                        reach.add(dst)
+                        stack.append(dst)
+            cyclic = any(src in _reach_from(op[2], dst) for src, dst, _ in op[2])
+            run.count('closegraph:cyclic' if cyclic else 'closegraph:acyclic')
+            nontriv = nontriv or cyclic
+            if out == 'hang':
+                fails.append(('close_complete', f'close_dependency_graph did not return (10 s of processor time) on {op[1:]}'))
+            elif not isinstance(out, dict) or out['tasks'] != sorted(reach) or not out['nodup']:
+                fails.append(('close_complete_nodup', f'close_dependency_graph gave {out}, expected {sorted(reach)} on {op[1:]}'))
+            continue
         if op[0] != 'close' or not isinstance(out, dict):
             continue
         roots = {rid(t) for t in op[1] if rid(t) is not None}
@@ -621,6 +697,18 @@ def oracle(case, impl, run):
             fails.append(('duplicate_names_rejected', f"check_unique_task_names accepted={out['unique']} for names {[names[t] for t in sorted(reach)]}"))
     impl['_nontrivial'] = nontriv
     return fails[:6]
+
+
+def _reach_from(edges, start):
+    seen = {start}
+    stack = [start]
+    while stack:
+        cur = stack.pop()
+        for src, dst, _ in edges:
+            if src == cur and dst not in seen:
+                seen.add(dst)
+                stack.append(dst)
+    return seen
 
 
 def is_generated(beh, tid, key):
